@@ -72,11 +72,12 @@ func runC16(c *Ctx) { runC16As(c, "C16") }
 // while a request runs).
 func runC16As(c *Ctx, P string) {
 	p := c.P
-	c.rule(P, "admit", "T-PAIR: from TryRLock success, exactly one release per path (RUnlock before return, or hand-off to the goroutine whose first defer is RUnlock); no release in HandleCall after the hand-off; failing edge does not read policy", 5)
+	c.rule(P, "admit", "T-PAIR: from TryRLock success, exactly one release per path (RUnlock before return, or hand-off to the goroutine whose first defer is RUnlock); no release in HandleCall after the hand-off; failing edge does not read policy", 3)
 	c.rule(P, "swap", "policy.Store / rateLimiter stores only in UpdatePolicyOptions under policyMu + policyRWMu.Lock, no return while the write lock is held", 4)
 	c.rule(P, "snapshot", "stored policy owns fresh copies of AllowedIPs, RateLimitConfig, TLS", 3)
 	c.rule(P, "limiter-read", "AbsfsNFS.rateLimiter is read only inside the admitted extent of a request", 5)
 	c.rule(P, "policy-read", "handlers/operations load the policy pointer only inside the admitted extent", 10)
+	runC16AdmitFirst(c, P)
 
 	ent, err := p.entrySet()
 	if err != nil {
